@@ -4,6 +4,7 @@ import (
 	"context"
 	"database/sql"
 	"database/sql/driver"
+	"errors"
 	"fmt"
 	"reflect"
 	"regexp"
@@ -284,8 +285,9 @@ func (stmt *Statement) AddClauseIfNotExists(v clause.Interface) {
 // BuildCondition build condition
 func (stmt *Statement) BuildCondition(query interface{}, args ...interface{}) []clause.Expression {
 	if s, ok := query.(string); ok {
-		// if it is a number, then treats it as primary key
-		if _, err := strconv.Atoi(s); err != nil {
+		// if it is a number, then treats it as primary key (also a number too large for an int: it names no row,
+		// and must not become raw SQL, where a bare number is a condition that always holds)
+		if _, err := strconv.Atoi(s); err != nil && !errors.Is(err, strconv.ErrRange) {
 			if s == "" && len(args) == 0 {
 				return nil
 			}
